@@ -129,3 +129,32 @@ Section More.
       rewrite Hm; (destruct r; [reflexivity|cbn [removed length]; rewrite ?Nat.sub_0_r, ?firstn_all; reflexivity]).
   Qed.
 End More.
+
+(** "$@" (a double-quoted part made of $@ expansions only) without positional parameters generates
+    no field at all: the part leaves the fields as they are, and the word "$@" alone expands to
+    zero fields in the default mode *)
+Section AtNone.
+  Variable users : list (bytes * bytes).
+  Variable glob : bytes -> option (list bytes).
+
+  Theorem quoted_at_no_params f e v rest mode first fs :
+    only_at v = true -> (length (args e) <= 1)%nat ->
+    expand_parts users (S f) e (WQuote 34 v :: rest) mode first fs = expand_parts users f e rest mode false fs.
+  Proof.
+    intros Hv Ha. cbn [expand_parts]. fold (expand users) (expand_parts users) (expand_param users).
+    change (34 =? 92) with false. change (34 =? 39) with false. change (34 =? 34) with true. cbn [orb]. cbv iota.
+    rewrite Hv. apply Nat.leb_le in Ha. rewrite Ha. reflexivity.
+  Qed.
+
+  Theorem quoted_at_alone_is_no_field e mode :
+    (length (args e) <= 1)%nat ->
+    mbit mode mLiteral = false -> mbit mode mPattern = false -> mbit mode mArith = false -> mbit mode mQuote = false ->
+    expand_top users glob e [WQuote 34 [WParam s_at [] None]] mode = Ok (e, []).
+  Proof.
+    intros Ha HL HP HA HQ. unfold expand_top. cbn [word_size fold_right part_size plus mult].
+    cbn [expand]. fold (expand users) (expand_parts users) (expand_param users). rewrite HQ.
+    apply Nat.leb_le in Ha.
+    change ((34 =? 92) || (34 =? 39)) with false. change (34 =? 34) with true. change (only_at [WParam s_at [] None]) with true.
+    rewrite Ha. cbn [andb]. cbv iota. rewrite HL, HP. cbn [fold_left]. rewrite HA. cbn [orb fempty forallb]. reflexivity.
+  Qed.
+End AtNone.
